@@ -546,7 +546,7 @@ def call_value(ctx, fn, args, kwargs):
         if stub is not None:
             if isinstance(fn, BoundMethod):
                 return stub(fn.self_obj, *args, **kwargs)
-            if isinstance(fn, types.MethodType):
+            if isinstance(fn, types.MethodType) and is_repo_function(fn.__func__):
                 return stub(fn.__self__, *args, **kwargs)
             return stub(*args, **kwargs)
     if isinstance(fn, BoundMethod):
@@ -1096,6 +1096,9 @@ class Interp(object):
                 else:
                     self.f.locals[nm] = self.ctx.fresh_like(v, 'h_' + nm)
         for nm, mk in (extra or {}).items():
+            if nm.startswith('__'):
+                mk(self.ctx)          # heap havoc hook
+                continue
             if nm not in names:
                 cur = self.f.locals.get(nm)
                 if isinstance(cur, MBytes):
@@ -1119,12 +1122,23 @@ class Interp(object):
         else:
             self.ctx.assume(res, silent=True)
 
+    def _gen_frame(self):
+        f = self.f
+        while f is not None and f.yields is None:
+            f = f.parent
+        return f
+
     def _while_with_invariant(self, s, spec):
-        inv, havoc, decreases = spec
+        inv, havoc, decreases = spec[:3]
+        on_exit = spec[3] if len(spec) > 3 else None
         tag = '%s/loop@%d' % (self.f.fname, loop_ordinal(self.f, s))
-        self._check_inv(tag + '/inv-init', inv, LocalsView(self.f))
+        gf = self._gen_frame()
+        ys = lambda: (gf.yields if gf is not None else None)
+        self._check_inv(tag + '/inv-init', inv, LocalsView(self.f, {'_phase': 'init', '_yields': ys()}))
         self._havoc(self._assigned_names(s.body), havoc)
-        self._assume_inv(inv, LocalsView(self.f))
+        if gf is not None:
+            gf.yields = []       # ghost output of the generator: per-iteration view under the invariant
+        self._assume_inv(inv, LocalsView(self.f, {'_phase': 'assume', '_yields': ys()}))
         if truth(self.ctx, self.eval(s.test)):
             d0 = decreases(LocalsView(self.f)) if decreases else None
             try:
@@ -1133,12 +1147,14 @@ class Interp(object):
                 return
             except _Continue:
                 pass
-            self._check_inv(tag + '/inv-step', inv, LocalsView(self.f))
+            self._check_inv(tag + '/inv-step', inv, LocalsView(self.f, {'_phase': 'step', '_yields': ys()}))
             if decreases:
                 d1 = decreases(LocalsView(self.f))
                 self.ctx.check(tag + '/decreases', sym.and_(d1 < d0, d0 >= 0))
             raise PathAbort('loop body verified')
         else:
+            if on_exit is not None:
+                self._check_inv(tag + '/on-exit', on_exit, LocalsView(self.f, {'_phase': 'exit', '_yields': ys()}))
             self.exec_block(s.orelse)
 
     def x_For(self, s):
@@ -1160,7 +1176,7 @@ class Interp(object):
             self.exec_block(s.orelse)
 
     def _for_with_invariant(self, s, it, spec):
-        inv, havoc, decreases = spec
+        inv, havoc, decreases = spec[:3]
         tag = '%s/loop@%d' % (self.f.fname, loop_ordinal(self.f, s))
         if isinstance(it, SymRange):
             lo, n, getter = it.lo, it.hi, (lambda i: i)
